@@ -458,9 +458,10 @@ in key order.  Keys are abstracted to natural numbers (their rank in the `Ord` o
 * the child's reader numbers its refetchable selections by the position of their (untransformed)
   path in the child's own map: `childIndex`  (`find_imperatively_fetchable_query_index` on the
   child's `refetch_paths`);
-* the parent's `Resolver` node lists, for the child's paths TRANSFORMED by the argument
-  substitution `f` and then SORTED (`refetched_paths_for_client_scalar_selectable`: `paths.sort()`),
-  their positions in the parent's map: `usedRefetchQueries`  (`get_nested_refetch_query_text`);
+* the parent's `Resolver` node lists, for the child's paths in the child's own order, each
+  TRANSFORMED by the argument substitution `f`, their positions in the parent's map:
+  `usedRefetchQueries`  (`get_nested_refetch_query_text`); before the repair of F18 the paths were
+  transformed first and sorted afterwards (`usedRefetchQueriesOld`);
 * the runtime composes: `nested'[i] = nested[used[i]]` (`readResolverFieldData`). -/
 namespace Book
 
@@ -480,16 +481,11 @@ def indexOf? (x : Nat) : List Nat → Option Nat
 /-- `refetchQueryIndex` the child's reader AST holds for its selection with path `σ` -/
 def childIndex (childPaths : List Nat) (σ : Nat) : Option Nat := indexOf? σ (sortKeys childPaths)
 
-/-- adjacent duplicates removed (a sorted list becomes duplicate free) -/
-def dedupAdjacent : List Nat → List Nat
-  | [] => []
-  | [x] => [x]
-  | x :: y :: rest => if x == y then dedupAdjacent (y :: rest) else x :: dedupAdjacent (y :: rest)
-
-/-- `usedRefetchQueries` of the parent's Resolver node: the child's paths are transformed, collected
-in a SET (`refetched_paths_with_path` returns a `HashSet`), sorted, and looked up in the parent's map -/
+/-- `usedRefetchQueries` of the parent's Resolver node (`user_written_variant_ast_node`, since the
+repair of F18): the child's paths IN THE CHILD'S OWN ORDER, each transformed (prefixed and its
+variables substituted) and looked up in the parent's map -/
 def usedRefetchQueries (parentPaths : List Nat) (f : Nat → Nat) (childPaths : List Nat) : List (Option Nat) :=
-  (dedupAdjacent (sortKeys (childPaths.map f))).map fun k => indexOf? k (sortKeys parentPaths)
+  (sortKeys childPaths).map fun k => indexOf? (f k) (sortKeys parentPaths)
 
 /-- the key of the parent's refetch query that the runtime ends up with for the child's selection `σ` -/
 def selectedKey (parentPaths : List Nat) (f : Nat → Nat) (childPaths : List Nat) (σ : Nat) : Option Nat :=
@@ -497,6 +493,26 @@ def selectedKey (parentPaths : List Nat) (f : Nat → Nat) (childPaths : List Na
   | none => none
   | some i =>
     match (usedRefetchQueries parentPaths f childPaths)[i]? with
+    | some (some j) => (sortKeys parentPaths)[j]?
+    | _ => none
+
+/-! before the repair the child's paths were transformed FIRST, collected in a set
+(`refetched_paths_with_path` returns a `HashSet`) and then sorted -/
+
+/-- adjacent duplicates removed (a sorted list becomes duplicate free) -/
+def dedupAdjacent : List Nat → List Nat
+  | [] => []
+  | [x] => [x]
+  | x :: y :: rest => if x == y then dedupAdjacent (y :: rest) else x :: dedupAdjacent (y :: rest)
+
+def usedRefetchQueriesOld (parentPaths : List Nat) (f : Nat → Nat) (childPaths : List Nat) : List (Option Nat) :=
+  (dedupAdjacent (sortKeys (childPaths.map f))).map fun k => indexOf? k (sortKeys parentPaths)
+
+def selectedKeyOld (parentPaths : List Nat) (f : Nat → Nat) (childPaths : List Nat) (σ : Nat) : Option Nat :=
+  match childIndex childPaths σ with
+  | none => none
+  | some i =>
+    match (usedRefetchQueriesOld parentPaths f childPaths)[i]? with
     | some (some j) => (sortKeys parentPaths)[j]?
     | _ => none
 
